@@ -107,6 +107,11 @@ def run_wt(sid, tier='quick', props=None):
             print(sid, prop, tier, 'exit', r.returncode, 'in %ds' % (time.time() - t0), '(worktree)')
             for l in viol[:4]:
                 print('    ', l)
+            inc = [l for l in r.stdout.split('\n') if l.startswith('INCONCLUSIVE')]
+            for l in inc[:3]:
+                print('    ', l[:300])
+            if inc:
+                res[prop]['inconclusive'] = len(inc)
             if r.returncode not in (0, 1):
                 print(r.stdout[-1500:])
     finally:
